@@ -3,6 +3,7 @@ CONSTANTS
   BSZ = 2
   PSizes = {4, 8}
   MaxBytes = 51
+  LenBits = 5
   Variant = "ok"
 INVARIANT MapLaw
 CHECK_DEADLOCK FALSE
